@@ -1,4 +1,5 @@
 """C03 - no stuck workflow: quiescence implies a resting status."""
+from vt.harness import kernels
 from vt.harness.common import control_slices, history_body, ob
 from vt.monitors import C03Quiescence
 
@@ -8,7 +9,7 @@ def quiescence(ch, ctx, did, **kw):
 
 
 def obligations(tier):
-    obs = []
+    obs = [kernels.e1("C03", "L5_no_stuck", "L5_no_stuck", timeout=600)]
     quick = [("D02", 5), ("D04", 5), ("D05", 6), ("D07", 5), ("D09", 8), ("D10", 6), ("D10c", 4), ("D11", 5), ("D11j", 6), ("D12", 6)]
     for did, steps in quick:
         o = ob("C03", "e2c." + did, "vt.harness.C03:quiescence", {"did": did, "steps": steps, "control": "either"}, timeout=900)
